@@ -33,7 +33,7 @@ theorem xor_cancel_right (a b : UInt32) : a ^^^ b ^^^ b = a := by
 swapped output of an encryption double round with `(a, b)` gives the whitened, swapped input -/
 theorem encR_inv (F : UInt32 → UInt32) (a b c d : UInt32) (x : UInt32 × UInt32) :
     encR F c d ((encR F a b x).2 ^^^ c, (encR F a b x).1 ^^^ d) = (x.2 ^^^ b, x.1 ^^^ a) := by
-  have h (u v w : UInt32) : u ^^^ v ^^^ w ^^^ v = u ^^^ w := by bv_decide
+  have h (u v w : UInt32) : u ^^^ v ^^^ w ^^^ v = u ^^^ w := by bv_decide (timeout := 300)
   simp only [encR, xor_cancel_right, h]
 
 theorem decryptPair_encryptPair (st : State) (l r : UInt32) :
@@ -63,12 +63,12 @@ theorem fromLe_eq : fromLe = le32 := rfl
 
 theorem le32_put (v : UInt32) :
     le32 v.toUInt8 (v >>> 8).toUInt8 (v >>> 16).toUInt8 (v >>> 24).toUInt8 = v := by
-  simp only [le32]; bv_decide
+  simp only [le32]; bv_decide (timeout := 300)
 
-theorem le32_b0 (a b c d : UInt8) : (le32 a b c d).toUInt8 = a := by simp only [le32]; bv_decide
-theorem le32_b1 (a b c d : UInt8) : (le32 a b c d >>> 8).toUInt8 = b := by simp only [le32]; bv_decide
-theorem le32_b2 (a b c d : UInt8) : (le32 a b c d >>> 16).toUInt8 = c := by simp only [le32]; bv_decide
-theorem le32_b3 (a b c d : UInt8) : (le32 a b c d >>> 24).toUInt8 = d := by simp only [le32]; bv_decide
+theorem le32_b0 (a b c d : UInt8) : (le32 a b c d).toUInt8 = a := by simp only [le32]; bv_decide (timeout := 300)
+theorem le32_b1 (a b c d : UInt8) : (le32 a b c d >>> 8).toUInt8 = b := by simp only [le32]; bv_decide (timeout := 300)
+theorem le32_b2 (a b c d : UInt8) : (le32 a b c d >>> 16).toUInt8 = c := by simp only [le32]; bv_decide (timeout := 300)
+theorem le32_b3 (a b c d : UInt8) : (le32 a b c d >>> 24).toUInt8 = d := by simp only [le32]; bv_decide (timeout := 300)
 
 /-- the block loop never fails on a whole number of blocks and is the spec's `ecb` -/
 theorem blockLoop_eq (pair : UInt32 → UInt32 → UInt32 × UInt32) :
@@ -115,7 +115,7 @@ theorem toUInt8_toNat_and (x : UInt32) : x.toUInt8.toNat = (x &&& 0xFF).toNat :=
   exact (Nat.and_two_pow_sub_one_eq_mod x.toNat 8).symm
 
 theorem F_eq (st : State) (x : UInt32) : Spec.Blowfish.F (toSpec st) x = f st x := by
-  have h24 : (x >>> 24) &&& (255 : UInt32) = x >>> 24 := by bv_decide
+  have h24 : (x >>> 24) &&& (255 : UInt32) = x >>> 24 := by bv_decide (timeout := 300)
   simp only [Spec.Blowfish.F, Spec.Blowfish.sbox_eq, f, toSpec, toUInt8_toNat_and, h24]
   rfl
 
@@ -177,12 +177,12 @@ def beWord (a b c d : UInt8) : UInt32 :=
 theorem keyWord_0 (k0 k1 k2 k3 k4 k5 k6 k7 : UInt8) (rest : Bytes) :
     keyWord (k0 :: k1 :: k2 :: k3 :: k4 :: k5 :: k6 :: k7 :: rest) 4 0 0 = some (beWord k0 k1 k2 k3, 4) := by
   simp [keyWord, blowfishKeyBytes, beWord]
-  bv_decide
+  bv_decide (timeout := 300)
 
 theorem keyWord_4 (k0 k1 k2 k3 k4 k5 k6 k7 : UInt8) (rest : Bytes) :
     keyWord (k0 :: k1 :: k2 :: k3 :: k4 :: k5 :: k6 :: k7 :: rest) 4 0 4 = some (beWord k4 k5 k6 k7, 0) := by
   simp [keyWord, blowfishKeyBytes, beWord]
-  bv_decide
+  bv_decide (timeout := 300)
 
 theorem spec_keyWord_even (k0 k1 k2 k3 k4 k5 k6 k7 : UInt8) (h) (i : Nat) (hi : i % 2 = 0) :
     Spec.Blowfish.keyWord [k0, k1, k2, k3, k4, k5, k6, k7] h i = beWord k0 k1 k2 k3 := by
